@@ -68,6 +68,10 @@ class Roles:
         m = match("list($x)", e) or match("[$y for $y in $x]", e)
         if m and self.is_arg_list(m['x']):
             return True
+        # the given tasks, each once, in their order (de-duplication by object identity: checked by C01.closure on _unique_tasks)
+        m = match("_unique_tasks($x)", e) or match("list(dict.fromkeys($x))", e) or match("list({id($t): $t for $t in $x}.values())", e)
+        if m and self.is_arg_list(m['x']):
+            return True
         return False
 
     def render(self, e: ast.AST, extra: Optional[Dict[str, str]] = None) -> str:
@@ -600,6 +604,11 @@ def require(ctx, o, f: Func, label: str, R, writes, eff, needs_elem: bool, mode_
     inverted = [g for g in early + late if keys & atoms_of(g.formula) and implication(g.formula, [R]) is not None
                 and implication(('and', [g.formula, R]), []) is not None and False]
     helper_calls = unfolded_raising_helpers(ctx, f, eff)
+    foreign = [g for g in early + late if g.foreign_binder and g.exc == 'RuntimeError']
+    if foreign and not opaque and not helper_calls:
+        its = ', '.join(sorted({src(it)[:50] for g in foreign for tgt, it in g.g.binders}))
+        o.undecided(f, f.node, label, f"[{label}] not established: guards sit in a loop over `{its}`, which the rule cannot relate to the argument")
+        return False
     if opaque or helper_calls:
         why = ("conditions the rule cannot interpret: " + '; '.join(a[7:][:60] for a in opaque[:3])) if opaque else \
             ("helper(s) that may hold the check: " + ', '.join(helper_calls[:3]))
